@@ -618,7 +618,8 @@ Definition format_block (allow_missing : bool) (b : block) : result str :=
               ++ [10%N] in
   let chg := flat_map nl (b_changes b) in
   do tr <-
-    (if b_no_trailer b then Ok []
+    (* if not self._no_trailer or self.author is not None or self.date is not None *)
+    (if b_no_trailer b && negb (is_some (b_author b)) && negb (is_some (b_date b)) then Ok []
      else
        do a <- match b_author b with
                | Some a => Ok (32%N :: a)
